@@ -140,9 +140,10 @@ var plainVals = map[string]lua.LValue{
 	"1": lua.LNumber(1), "2.5": lua.LNumber(2.5), "'10'": lua.LString("10"), "'abc'": lua.LString("abc"), "''": lua.LString(""),
 	"true": lua.LTrue, "false": lua.LFalse, "nil": lua.LNil, "'present'": lua.LString("present"), "'missing'": lua.LString("missing"),
 	"'fls'": lua.LString("fls"), "'inherited'": lua.LString("inherited"), "9": lua.LNumber(9),
+	"1.5": lua.LNumber(1.5), "9.75": lua.LNumber(9.75), "0.5": lua.LNumber(0.5),
 }
 var plainOperands = []string{"1", "2.5", "'10'", "'abc'", "''", "true", "false", "nil"}
-var keyNames = []string{"'present'", "'missing'", "'fls'", "'inherited'", "1", "9", "true"}
+var keyNames = []string{"'present'", "'missing'", "'fls'", "'inherited'", "1", "9", "true", "1.5", "9.75", "0.5", "2.5"}
 var valNames = []string{"1", "'abc'", "false", "nil", "true"}
 
 func genMask(r *rand.Rand, full bool) map[string]int {
